@@ -128,7 +128,7 @@ fn grid(thorough: bool) -> Vec<RHub> {
     let dlens: Vec<usize> = if thorough { lens.to_vec() } else { vec![0, 32, 33] };
     let amounts: [u128; 5] = [0, 1, 1 << 64, (1u128 << 127) - 1, 1000];
     let datas = [0usize, 1, 32, 33];
-    let names: Vec<Vec<u8>> = vec![b"T".to_vec(), "é".as_bytes().to_vec(), "🚀".as_bytes().to_vec(), vec![b'n'; 31], vec![b'n'; 32], vec![b'n'; 33], b" ".to_vec(), b" Mixed Case ".to_vec()];
+    let names: Vec<Vec<u8>> = vec![b"T".to_vec(), "é".as_bytes().to_vec(), "🚀".as_bytes().to_vec(), vec![b'n'; 31], vec![b'n'; 32], vec![b'n'; 33], b" ".to_vec(), b" Mixed Case ".to_vec(), b"PAD\0".to_vec()];
     let symbols: Vec<Vec<u8>> = vec![b"S".to_vec(), "π€".as_bytes().to_vec(), vec![b's'; 32], vec![b's'; 33]];
     for chain in chains() {
         for id in ids() {
@@ -466,7 +466,7 @@ fn main() {
     let cov = serde_json::json!({
         "evaluations": st.evals.load(Ordering::Relaxed),
         "distinct_nontrivial": st.distinct.load(Ordering::Relaxed),
-        "rule": "encode side: the full product grid of hub messages (both wrappers x both inner kinds; chain names of 0/1/31/32/33 bytes, multi-byte, mixed case with surrounding blanks; ids 00.., ff.., pattern; address/data/minter lengths 0,1,31,32,33,64,65; amounts 0,1,1000,2^64,2^127-1; names/symbols of 1 byte, 2- and 4-byte UTF-8 scalars, 31/32/33 bytes, a single blank, mixed case with surrounding blanks; decimals 0,1,18,255): abi_encode must equal the independent head/tail encoder byte for byte and decode back to the same message. Decode side: for a covering subset of 64 (quick) / 256 (thorough) encodings every truncation, every single-bit flip, every 32-byte word replaced by each of ~30 boundary words and by each of the 256 words whose four 64-bit limbs are 0 / 1 / 2^63 / 2^64-1, pairs of word replacements, 8 kinds of trailing bytes, 4 kinds of trailing bytes on the inner message inside a canonical wrapper; all byte strings of length <= 2; all one-hot words; short type-tag-only inputs. Oracle: no panic, and Ok(m) implies both re-encoding m and the independent encoding of m reproduce the input exactly. A case is distinct when its byte string (or message) differs; all are non-trivial (each is a decode or encode compared with the reference)",
+        "rule": "encode side: the full product grid of hub messages (both wrappers x both inner kinds; chain names of 0/1/31/32/33 bytes, multi-byte, mixed case with surrounding blanks; ids 00.., ff.., pattern; address/data/minter lengths 0,1,31,32,33,64,65; amounts 0,1,1000,2^64,2^127-1; names/symbols of 1 byte, 2- and 4-byte UTF-8 scalars, 31/32/33 bytes, a single blank, mixed case with surrounding blanks, a trailing NUL; decimals 0,1,18,255): abi_encode must equal the independent head/tail encoder byte for byte and decode back to the same message. Decode side: for a covering subset of 64 (quick) / 256 (thorough) encodings every truncation, every single-bit flip, every 32-byte word replaced by each of ~30 boundary words and by each of the 256 words whose four 64-bit limbs are 0 / 1 / 2^63 / 2^64-1, pairs of word replacements, 8 kinds of trailing bytes, 4 kinds of trailing bytes on the inner message inside a canonical wrapper; all byte strings of length <= 2; all one-hot words; short type-tag-only inputs. Oracle: no panic, and Ok(m) implies both re-encoding m and the independent encoding of m reproduce the input exactly. A case is distinct when its byte string (or message) differs; all are non-trivial (each is a decode or encode compared with the reference)",
         "samples": samples,
         "exhaustive": fail.is_none(),
         "grid_messages": n_grid,
